@@ -382,7 +382,11 @@ def _do_decompress_manually(target_directory: str, filename: str, decompressor_a
 def _do_decompress_manually_external(
     target_directory: str, filename: str, base_path_without_extension: str, decompressor_args: list[str]
 ) -> bool:
-    with open(os.path.join(target_directory, base_path_without_extension), "wb") as new_file:
+    target_path = os.path.join(target_directory, base_path_without_extension)
+    # Decompress to a temporary file and only move it into place when it is complete. Otherwise an interrupted run leaves a
+    # partial file behind that cannot be told apart from the real one if the track does not specify its size.
+    tmp_path = f"{target_path}.tmp"
+    with open(tmp_path, "wb") as new_file:
         try:
             subprocess.run(decompressor_args + [filename], stdout=new_file, stderr=subprocess.PIPE, check=True)
         except subprocess.CalledProcessError as err:
@@ -390,6 +394,7 @@ def _do_decompress_manually_external(
                 "Failed to decompress [%s] with [%s]. Error [%s]. Falling back to standard library.", filename, err.cmd, err.stderr
             )
             return False
+    os.replace(tmp_path, target_path)
     return True
 
 
@@ -397,10 +402,14 @@ def _do_decompress_manually_with_lib(target_directory: str, filename: str, compr
     path_without_extension = basename(splitext(filename)[0])
 
     ensure_dir(target_directory)
+    target_path = os.path.join(target_directory, path_without_extension)
+    # see _do_decompress_manually_external: never leave a partial file under the final name
+    tmp_path = f"{target_path}.tmp"
     try:
-        with open(os.path.join(target_directory, path_without_extension), "wb") as new_file:
+        with open(tmp_path, "wb") as new_file:
             for data in iter(lambda: compressed_file.read(100 * 1024), b""):
                 new_file.write(data)
+        os.replace(tmp_path, target_path)
     finally:
         compressed_file.close()
 
